@@ -15,6 +15,17 @@ theorem veq_eq_valuesEqual (x v : Value)
   rcases hk with ⟨n, rfl⟩ | ⟨f, rfl⟩ | ⟨s, rfl⟩ | ⟨b, rfl⟩ <;> cases x <;>
     simp_all [veq, valuesEqual, eqSafe]
 
+/-- the `eqEpsilon` guard is exact: on the `Compare` path `Value` equality and `values_equal`
+coincide **iff** `eqSafe` holds -/
+theorem eqSafe_exact (x v : Value)
+    (hk : (∃ n, v = .int n) ∨ (∃ f, v = .float f) ∨ (∃ s, v = .str s) ∨ (∃ b, v = .bool b)) :
+    veq x v = valuesEqual x v ↔ eqSafe x v = true := by
+  constructor
+  · intro h
+    rcases hk with ⟨n, rfl⟩ | ⟨f, rfl⟩ | ⟨s, rfl⟩ | ⟨b, rfl⟩ <;> cases x <;>
+      simp_all [veq, valuesEqual, eqSafe]
+  · exact veq_eq_valuesEqual x v hk
+
 theorem cmp_strong (op : CmpOp) (x v : Value)
     (hk : (∃ n, v = .int n) ∨ (∃ f, v = .float f) ∨ (∃ s, v = .str s) ∨ (∃ b, v = .bool b))
     (h : whyCmpStrong op x v = none) : evalCmp op x v = some (.bool (compareValues x v op)) := by
